@@ -174,6 +174,38 @@ theorem disabled_variable_skipped (F : Fn α) (outs : List (OutVar α)) (impl : 
     Op.Engine.modify F outs impl (c :: cs) d fz = Op.Engine.modify F outs impl cs d fz := by
   simp [Op.Engine.modify, hf, hd]
 
+/-! ### the engine model is composed of the component models of C09 / C10 / C12
+
+These statements hold by unfolding: the executable engine model calls the very functions the component properties
+are proved about, so `C09.*`, `C10.*` and `C12.*` speak about the values `processRow` computes. -/
+
+/-- defuzzification of an integral output: the C09 defuzzifier applied to the membership of the aggregated set at the
+    midpoints of the variable's range -/
+theorem defuzz_integral_is_component (F : Fn α) (inputs : List (X α)) (ov : OutVar α) (acts : List (Act α))
+    (kind : String) (r : Nat) (h : ov.defuzz = .integral kind r) :
+    defuzzRaw F inputs ov acts =
+      ((Op.Integral.midpoints ov.lo ov.hi r).mapM (aggMembership F inputs ov.aggregation acts)).bind
+        (fun ys => integral kind (Op.Integral.midpoints ov.lo ov.hi r) ys) := by
+  simp only [defuzzRaw, h]
+  cases (Op.Integral.midpoints ov.lo ov.hi r).mapM (aggMembership F inputs ov.aggregation acts) <;> rfl
+
+theorem integral_is_component (xs ys : List (X α)) :
+    integral "Centroid" xs ys = some (Op.Integral.centroid xs ys) ∧
+    integral "Bisector" xs ys = some (Op.Integral.bisector xs ys) ∧
+    integral "SmallestOfMaximum" xs ys = some (Op.Integral.som xs ys) ∧
+    integral "MeanOfMaximum" xs ys = some (Op.Integral.mom xs ys) ∧
+    integral "LargestOfMaximum" xs ys = some (Op.Integral.lom xs ys) := ⟨rfl, rfl, rfl, rfl, rfl⟩
+
+/-- an output without activations: the aggregated membership is 0 at every sample point -/
+theorem no_activation_membership (F : Fn α) (inputs : List (X α)) (agg : Option String) (x : X α) :
+    aggMembership F inputs agg [] x = some (.fin 0) := rfl
+
+/-- the value an output variable takes after a step is the C12 cascade applied to the raw defuzzified value -/
+theorem value_is_cascade (ov : OutVar α) (raw : X α) (st : Op.OutState α) :
+    (Op.defuzzify (cascadeCfg ov) (some [raw]) st).1 =
+      if ov.enabled then Op.commit (cascadeCfg ov) [raw] st else st := by
+  cases h : ov.enabled <;> simp [Op.defuzzify, cascadeCfg, h]
+
 end refinement
 
 /-! ## non-vacuity -/
